@@ -87,7 +87,15 @@ def _run_clause(it, fn, fr, extra=None):
         if extra and p in extra:
             ns[p] = extra[p]
         else:
-            ns[p] = it.lookup_name(p, fr)
+            f = fr
+            v = V.UNBOUND
+            while f is not None and v is V.UNBOUND:
+                v = f.locals.get(p, V.UNBOUND)
+                f = f.parent
+            if v is V.UNBOUND and p not in fr.globals or v is V.LOOP_UNKNOWN:
+                ns[p] = None         # a local not assigned on this path: the clause sees None
+            else:
+                ns[p] = it.lookup_name(p, fr)
     return it.run_body(fn, ns)
 
 
